@@ -4,8 +4,37 @@ RUN_TARGETS = ['Run/MathOps.vo']
 TRUSTED = ['hand model coq/Base/Num.v (dsin .. approx_eq) tied by the differential run: the argument handed to libm and the scaling of the result are checked bit-exactly',
            'theorems over R']
 ASSUMPTIONS = ['stdlib real-number axioms', 'libm sin/cos/tan/asin/acos/atan are not modelled']
+import math
+def _close(a, b):
+    if a != a or b != b: return (a != a) == (b != b)
+    if math.isinf(a) or math.isinf(b): return a == b
+    return abs(a - b) <= 1e-12 * max(1.0, abs(a), abs(b))
+def oracle(case):
+    """independent of the trig log: the value returned is the trig function of the angle in degrees per Python's libm"""
+    op, args, res = case
+    if res is None or not args: return None
+    x = args[0]
+    try:
+        if op == 140: want = math.sin(math.radians(x))
+        elif op == 141: want = math.cos(math.radians(x))
+        elif op == 142:
+            want = math.tan(math.radians(x))
+            if abs(want) > 1e6: return None        # near the poles one ulp of the argument dominates
+        elif op == 143: want = math.degrees(math.asin(x)) if -1 <= x <= 1 else float('nan')
+        elif op == 144: want = math.degrees(math.acos(x)) if -1 <= x <= 1 else float('nan')
+        elif op == 145: want = math.degrees(math.atan(x))
+        elif op == 146: want = 1.0 if abs(args[0] - args[1]) < args[2] else 0.0
+        else: return None
+    except (ValueError, OverflowError):
+        return None
+    if isinstance(x, float) and (math.isinf(x) or x != x) and op != 146: return None
+    if abs(x) > 1e15 and op in (140, 141, 142): return None   # argument reduction of huge angles differs by the rounding of to_radians
+    if not _close(res[0], want):
+        return {'clause': 'value_is_trig_in_degrees', 'key': 'libm%d' % op, 'op': op, 'args': args, 'implementation': res, 'expected': want,
+                'what': 'the helper does not return the trig function of the angle in degrees (independent evaluation with Python math)'}
+    return None
 def run(ctx):
     n = 1400 if ctx['tier'] == 'quick' else 30000
-    return mathprop.run_ranges('C12', [(140, 146)], n, ctx['seed'])
+    return mathprop.run_ranges('C12', [(140, 146)], n, ctx['seed'], oracle=oracle)
 def match_known(f, known): return None
 def replay(path): return mathprop.replay('C12', path)
